@@ -133,10 +133,11 @@ Definition s_c14 (stake_c : bool) (npool : N) (pre post : obs) (sender : N) (o :
       let weights_changed := negb (same_weights npool (ob_list pre) (ob_list post)) in
       match hp with
       | [] =>
-          (* nobody was told: either nobody listens, or (stake) nothing changed; group always notifies *)
+          (* nobody was told: either nobody listens, or no weight changed (the property asks for a notification
+             only for calls that change some member's weight) *)
           match ob_hooks pre with
           | [] => 0
-          | _ => if stake_c && negb weights_changed then 0 else 4       (* a registered hook was not notified *)
+          | _ => if negb weights_changed then 0 else 4                  (* a registered hook was not notified *)
           end
       | (_, ds) :: _ =>
           if negb (perm_eqb (map fst hp) (ob_hooks pre)) then 5           (* not exactly one notification per registered hook *)
